@@ -529,12 +529,17 @@ from harness.h_hist import C19_TEXT  # noqa: E402
 
 
 
-CV = H.part("VF_CV", 0)      # how the chart under test was parsed: 0 default, 1 want_tracks=[], 2 one selected track
-_C19_WANT = [None, [], [(Instrument.DRUMS, Difficulty.HARD)]][CV]
+CV = H.part("VF_CV", 0)      # the chart under test: 0 default, 1 want_tracks=[], 2 one selected track,
+#                              3 Player2 = rhythm with bass tracks only, 4 a long track (600 notes)
+_C19_WANT = [None, [], [(Instrument.DRUMS, Difficulty.HARD)], None, None][CV]
+_C19_TEXTS = [C19_TEXT, C19_TEXT, C19_TEXT,
+              C19_TEXT.replace('  Name = "t"', '  Name = "t"\n  Player2 = rhythm').replace("[HardDrums]", "[HardDoubleBass]")
+              + "[EasyDoubleBass]\n{\n  0 = N 1 0\n}\n",
+              C19_TEXT.replace("[HardDrums]", "[HardSingle]\n{\n" + "".join("  %d = N %d 0\n" % (10 * k, k % 5) for k in range(600)) + "}\n[HardDrums]")]
 
 
 def _parse_c19():
-    return Chart.from_file(io.StringIO(C19_TEXT), want_tracks=_C19_WANT)
+    return Chart.from_file(io.StringIO(_C19_TEXTS[CV]), want_tracks=_C19_WANT)
 
 
 try:
@@ -547,14 +552,24 @@ except Exception as _e:  # noqa: BLE001  (reported by the harness itself)
 
 INSTR_ALL = list(Instrument)
 INSTR_SET = [INSTR_ALL[i] for i in range(len(INSTR_ALL)) if i % NPARTS == PART] if H.part("VF_ALLINSTR", 0) \
-    else [Instrument.GUITAR, Instrument.BASS, Instrument.DRUMS]
+    else ([Instrument.GUITAR, Instrument.BASS, Instrument.DRUMS] if CV != 3 else [Instrument.RHYTHM, Instrument.BASS, Instrument.GUITAR])
 DIFF_ALL = list(Difficulty)
 
 
 from harness.h_hist import _ev, _norm, observe  # noqa: E402,F401
 
 
-_OBS0 = observe(_PRISTINE) if _PRISTINE is not None else None
+
+
+def observe19(chart):
+    """Every public datum plus the renderings a user can print (str / repr of the chart and of its parts)."""
+    parts = [chart.metadata, chart.sync_track, chart.global_events_track]
+    for dd in list(chart.instrument_tracks.values()):
+        parts += list(dd.values())
+    return (observe(chart), repr(chart), str(chart), tuple((repr(p_), str(p_)) for p_ in parts))
+
+
+_OBS0 = observe19(_PRISTINE) if _PRISTINE is not None else None
 C19_MULT = {125.0: 2500, 62.5: 5000}   # exact microseconds per tick at resolution 192 (linear clock)
 NOPS = 9
 
@@ -683,6 +698,7 @@ def immutability(c1: int, a: int, b: int) -> bool:
     """
     pre: 0 <= c1 < len(CASES1)
     pre: a >= 0 and b >= 0
+    pre: CV != 4 or (a <= 2 and b <= 2)
     post: _
     """
     if _C19_ERR is not None:
@@ -693,7 +709,7 @@ def immutability(c1: int, a: int, b: int) -> bool:
     twin = _TWIN
     _do_op(chart, twin, op, ii, dj, form, a, b)
     with H.untraced():
-        ok = observe(chart) == _OBS0 and chart == twin and twin == chart
+        ok = observe19(chart) == _OBS0 and chart == twin and twin == chart
     return done(ok)
 
 
@@ -712,10 +728,10 @@ def immutability2(c1: int, c2: int, a: int, b: int) -> bool:
     twin = _TWIN
     _do_op(chart, twin, op, ii, dj, form, a, b)
     with H.untraced():
-        ok = observe(chart) == _OBS0 and chart == twin
+        ok = observe19(chart) == _OBS0 and chart == twin
     _do_op(chart, twin, op2, ii2, dj2, form2, b, a)
     with H.untraced():
-        ok = ok and observe(chart) == _OBS0 and chart == twin and twin == chart
+        ok = ok and observe19(chart) == _OBS0 and chart == twin and twin == chart
     return done(ok)
 
 
